@@ -324,7 +324,7 @@ def run_canary(spec, rep, timeout_s):
     try:
         spec.ensures = lambda I, a, out: (canary(I, a, out) if out.kind == "return" else [])
         refuted = False
-        for case in spec.cases()[-1:]:
+        for case in ([spec.canary_case] if getattr(spec, "canary_case", None) else spec.cases()[-1:]):
             results = H.explore(spec, case)
             work = [(ob, r.inputs, timeout_s) for r in results if not r.undecided and not r.dropped for ob in r.obligations
                     if ob.kind == "ensures"]
